@@ -98,7 +98,7 @@ def truncate(path, cls):
         f.write(data[:cut])
 
 
-def run_history(start, dt, kinds, begin_settings, compress, crash_k, trunc, two_instances, tear="main"):
+def run_history(start, dt, kinds, begin_settings, compress, crash_k, trunc, two_instances, tear="main", order="asc"):
     """crash_k: index of the request after which the server is lost (0 = right after begin-session).
     trunc: None or a truncation class applied to the file written by request crash_k."""
     from BPTK_Py.externalstateadapter import FileAdapter
@@ -106,8 +106,11 @@ def run_history(start, dt, kinds, begin_settings, compress, crash_k, trunc, two_
     stop = float(Fraction(str(start)) + max(8, sum(MULTI.get(k, 1) for k in kinds) + 4) * Fraction(str(dt)))
     sd = os.path.join(core.scratch_dir(), "c20_%d" % os.getpid())
     viol = []
-    label = "start=%r dt=%r steps=%r begin-settings=%s compress=%s crash-after=%d trunc=%s two=%s" % (start, dt, kinds, begin_settings, compress, crash_k, trunc, two_instances)
+    if kinds and kinds[0] in ("twins", "bystander"):
+        return run_special(start, dt, kinds, compress, crash_k, order)
+    label = "start=%r dt=%r steps=%r begin-settings=%s compress=%s crash-after=%d trunc=%s two=%s listing=%s" % (start, dt, kinds, begin_settings, compress, crash_k, trunc, two_instances, order)
     factory = srv.make_factory(start, stop, dt)
+    srv.listdir_order(order)
     reqs = requests_of(kinds, 2)
     try:
         # ---- the uninterrupted run
@@ -176,6 +179,75 @@ def run_history(start, dt, kinds, begin_settings, compress, crash_k, trunc, two_
     return viol
 
 
+def run_special(start, dt, kinds, compress, crash_k, order):
+    """kinds[0] == "twins": two instances with identical sessions stepped in turns (A, B, A, B, ...), the server lost after round crash_k;
+    kinds[0] == "bystander": next to the session an instance WITHOUT a session exists (never begun / ended) that was sent a stepping
+    request (refused) or was there when the whole state was saved; the server is lost after request crash_k.
+    kinds[1] = variant, kinds[2:] = the step kinds.  Oracle as in run_history: the uninterrupted run of the same session."""
+    from BPTK_Py.externalstateadapter import FileAdapter
+    from fractions import Fraction
+    what, variant, steps = kinds[0], kinds[1], list(kinds[2:])
+    stop = float(Fraction(str(start)) + max(8, sum(MULTI.get(k, 1) for k in steps) + 4) * Fraction(str(dt)))
+    sd = os.path.join(core.scratch_dir(), "c20s_%d" % os.getpid())
+    label = "start=%r dt=%r %s/%s steps=%r compress=%s crash-after=%d listing=%s" % (start, dt, what, variant, steps, compress, crash_k, order)
+    factory = srv.make_factory(start, stop, dt)
+    reqs = requests_of(steps, 2)
+    viol = []
+    srv.listdir_order(order)
+    try:
+        shutil.rmtree(sd, ignore_errors=True)
+        os.makedirs(sd)
+        app, client = srv.make_server(factory)           # the uninterrupted session (no adapter needed)
+        iid = srv.start_instance(client)
+        client.post("/%s/begin-session" % iid, json=begin_body(True))
+        want = [issue(client, iid, r) for r in reqs]
+        app, client = srv.make_server(factory, adapter=FileAdapter(compress, sd))
+        a = srv.start_instance(client)
+        others = []
+        if what == "twins":
+            b = srv.start_instance(client)
+            others = [b]
+            for i in (a, b):
+                client.post("/%s/begin-session" % i, json=begin_body(True))
+            for r in reqs[:crash_k]:
+                for i in (a, b):
+                    issue(client, i, r)
+        else:
+            client.post("/%s/begin-session" % a, json=begin_body(True))
+            byst = srv.start_instance(client)
+            if variant.startswith("ended"):
+                client.post("/%s/begin-session" % byst, json=begin_body(False))
+                client.post("/%s/end-session" % byst)
+            for j, r in enumerate(reqs[:crash_k]):
+                issue(client, a, r)
+                if j == 0:
+                    if variant.endswith("run-step"):
+                        client.post("/%s/run-step" % byst)
+                    elif variant.endswith("run-steps"):
+                        client.post("/%s/run-steps" % byst, json={"numberSteps": 2, "settings": {}})
+                    else:
+                        client.get("/save-state")
+        del app, client
+        try:
+            app2, client2 = srv.make_server(factory, adapter=FileAdapter(compress, sd))
+        except Exception as e:
+            return [("constructor-raises/%s" % type(e).__name__, "%s: %r" % (label, e))]
+        for i in [a] + others:
+            rest = [issue(client2, i, r) for r in reqs[crash_k:]]
+            for j, (g, w) in enumerate(zip(rest, want[crash_k:])):
+                if g != w:
+                    viol.append(("continuation/%s" % reqs[crash_k + j][0], "%s: instance %s request #%d after the restart returns %r, the uninterrupted session %r" % (
+                        label, "A" if i == a else "B", crash_k + j, str(g)[:240], str(w)[:240])))
+                    break
+    except Exception as e:
+        import traceback
+        viol.append(("harness-path-raises/%s" % type(e).__name__, label + " " + traceback.format_exc()[-400:]))
+    finally:
+        srv.listdir_order("asc")
+        shutil.rmtree(sd, ignore_errors=True)
+    return viol
+
+
 def jobs(tier):
     out = []
     nmax = 3 if tier == "quick" else 4
@@ -199,6 +271,21 @@ def jobs(tier):
                             out.append((st, dt, list(kinds), True, compress, k, tr, two))
                         # the *other* instance's file is the damaged one: this session continues as if nothing happened
                         out.append((st, dt, list(kinds), True, compress, k, tr, True, "other"))
+                        if tr in ("in-header", "in-state"):
+                            # (the directory listed the other way round: the damaged file comes first / last)
+                            out.append((st, dt, list(kinds), True, compress, k, tr, True, "main", "desc"))
+                            out.append((st, dt, list(kinds), True, compress, k, tr, True, "other", "desc"))
+    # twins: two instances with identical sessions stepped in turns; a bystander instance without a session
+    for (st, dt) in specs[:2]:
+        for steps in (["nobody", "nobody", "nobody"], ["v1", "nobody", "v2p"], ["empty", "v1", "rs2e"]):
+            for compress in (False, True):
+                for k in (1, 2, 3):
+                    out.append((st, dt, ["twins", "-"] + steps, True, compress, k, None, True))
+                    for variant in ("never-begun+run-step", "never-begun+run-steps", "never-begun+save-state", "ended+run-step", "ended+save-state"):
+                        for order in ("asc", "desc"):
+                            if order == "desc" and (k != 2 or compress):
+                                continue
+                            out.append((st, dt, ["bystander", variant] + steps, True, compress, k, None, True, "main", order))
     # the last request before the crash took several steps (run-steps)
     for (st, dt) in specs[:2]:
         for n in (1, 2, 3):
@@ -243,6 +330,8 @@ def run(ctx):
                 feat = []
                 if j[3]:
                     feat.append("begin-settings")
+                if j[2] and j[2][0] in ("twins", "bystander"):
+                    feat.append("%s:%s" % (j[2][0], j[2][1]))
                 if any(k in ("v1", "v2p") for k in j[2][:j[5]]):
                     feat.append("step-settings-before-crash")
                 if j[4]:
@@ -253,7 +342,7 @@ def run(ctx):
     ctx.finish({
         "evaluations": len(js), "distinct_nontrivial": len(js) - skipped, "not_externalised_yet_skipped": skipped, "crash_point_cases": crash_points, "torn_write_cases": torn,
         "rule": "histories (run spec x N <= %d stepping requests x every sequence over {no body, {}, constants, constants+points} x begin-session settings x compress) x "
-                "every crash point k in 0..N; plus histories with run-steps requests, 12-step sessions with a setting in every step on decimal grids (dt .1, .05, ...) at every crash point, and torn writes: file written by request k cut at %r, with and without a second intact instance; "
+                "every crash point k in 0..N; plus twins (two instances with identical sessions stepped in turns), a bystander instance without a session that was sent a stepping request or saved with the rest, histories with run-steps requests, 12-step sessions with a setting in every step on decimal grids (dt .1, .05, ...) at every crash point, and torn writes: file written by request k cut at %r, with and without a second intact instance; "
                 "each case = one interrupted execution compared with the uninterrupted one" % (3 if ctx.tier == "quick" else 4, TRUNC),
         "samples": [list(j) for j in js[:2]] + [list(js[-1])],
     }, assumptions=["crash = the server object is dropped between two requests (or the last written state file is truncated); FileAdapter only"])
